@@ -150,7 +150,7 @@ def oracle(case) -> Result:
             res.bad('discrete-cost-differs-from-exported-network', metric=name, pit=c,
                     reference=ref, full_cost=case['full_cost'])
     res.obs = obs
-    pr = mk.n_pruned(spec, masks)
+    pr = mk.n_pruned(spec, masks, fixed)
     res.nontrivial = (pr['features'] + pr['taps'] > 0) and changed
     res.ev(*ng.spec_features(spec))
     res.ev(*[f"metric:{n}" for n in names])
